@@ -186,6 +186,7 @@ pub fn gen_exec_scenario(id: &str, run_seed: u64) -> Result<Scenario, String> {
         tail: vec![Tail::Encode],
         exec: Some(plan),
         info: Some(info),
+        walk: None,
     })
 }
 
